@@ -10,9 +10,9 @@ Directives.vos Directives.vok Directives.required_vos: Directives.v Ast.vos
 Erase.vo Erase.glob Erase.v.beautified Erase.required_vo: Erase.v Ast.vo Generated.vo HookSites.vo Directives.vo
 Erase.vio: Erase.v Ast.vio Generated.vio HookSites.vio Directives.vio
 Erase.vos Erase.vok Erase.required_vos: Erase.v Ast.vos Generated.vos HookSites.vos Directives.vos
-Extract.vo Extract.glob Extract.v.beautified Extract.required_vo: Extract.v Ast.vo Generated.vo Config.vo ToConfig.vo SrcMap.vo Literals.vo Model.vo HookSites.vo Known.vo Directives.vo Erase.vo Sites.vo Hygiene.vo Shapes.vo
-Extract.vio: Extract.v Ast.vio Generated.vio Config.vio ToConfig.vio SrcMap.vio Literals.vio Model.vio HookSites.vio Known.vio Directives.vio Erase.vio Sites.vio Hygiene.vio Shapes.vio
-Extract.vos Extract.vok Extract.required_vos: Extract.v Ast.vos Generated.vos Config.vos ToConfig.vos SrcMap.vos Literals.vos Model.vos HookSites.vos Known.vos Directives.vos Erase.vos Sites.vos Hygiene.vos Shapes.vos
+Extract.vo Extract.glob Extract.v.beautified Extract.required_vo: Extract.v Ast.vo Generated.vo Config.vo ToConfig.vo SrcMap.vo Literals.vo Model.vo HookSites.vo Known.vo Directives.vo Erase.vo Sites.vo Hygiene.vo Shapes.vo Order.vo
+Extract.vio: Extract.v Ast.vio Generated.vio Config.vio ToConfig.vio SrcMap.vio Literals.vio Model.vio HookSites.vio Known.vio Directives.vio Erase.vio Sites.vio Hygiene.vio Shapes.vio Order.vio
+Extract.vos Extract.vok Extract.required_vos: Extract.v Ast.vos Generated.vos Config.vos ToConfig.vos SrcMap.vos Literals.vos Model.vos HookSites.vos Known.vos Directives.vos Erase.vos Sites.vos Hygiene.vos Shapes.vos Order.vos
 Generated.vo Generated.glob Generated.v.beautified Generated.required_vo: Generated.v 
 Generated.vio: Generated.v 
 Generated.vos Generated.vok Generated.required_vos: Generated.v 
@@ -34,6 +34,9 @@ Literals.vos Literals.vok Literals.required_vos: Literals.v Ast.vos Generated.vo
 Model.vo Model.glob Model.v.beautified Model.required_vo: Model.v Ast.vo Generated.vo Config.vo
 Model.vio: Model.v Ast.vio Generated.vio Config.vio
 Model.vos Model.vok Model.required_vos: Model.v Ast.vos Generated.vos Config.vos
+Order.vo Order.glob Order.v.beautified Order.required_vo: Order.v Ast.vo Generated.vo HookSites.vo Erase.vo
+Order.vio: Order.v Ast.vio Generated.vio HookSites.vio Erase.vio
+Order.vos Order.vok Order.required_vos: Order.v Ast.vos Generated.vos HookSites.vos Erase.vos
 P_Config.vo P_Config.glob P_Config.v.beautified P_Config.required_vo: P_Config.v Ast.vo Generated.vo Config.vo ToConfig.vo Model.vo
 P_Config.vio: P_Config.v Ast.vio Generated.vio Config.vio ToConfig.vio Model.vio
 P_Config.vos P_Config.vok P_Config.required_vos: P_Config.v Ast.vos Generated.vos Config.vos ToConfig.vos Model.vos
@@ -91,6 +94,9 @@ SrcMap.vos SrcMap.vok SrcMap.required_vos: SrcMap.v
 ToConfig.vo ToConfig.glob ToConfig.v.beautified ToConfig.required_vo: ToConfig.v Ast.vo Generated.vo Config.vo
 ToConfig.vio: ToConfig.v Ast.vio Generated.vio Config.vio
 ToConfig.vos ToConfig.vok ToConfig.required_vos: ToConfig.v Ast.vos Generated.vos Config.vos
+Properties/C01.vo Properties/C01.glob Properties/C01.v.beautified Properties/C01.required_vo: Properties/C01.v Ast.vo Generated.vo Config.vo Model.vo HookSites.vo Erase.vo Order.vo P_Local.vo P_Hooks.vo
+Properties/C01.vio: Properties/C01.v Ast.vio Generated.vio Config.vio Model.vio HookSites.vio Erase.vio Order.vio P_Local.vio P_Hooks.vio
+Properties/C01.vos Properties/C01.vok Properties/C01.required_vos: Properties/C01.v Ast.vos Generated.vos Config.vos Model.vos HookSites.vos Erase.vos Order.vos P_Local.vos P_Hooks.vos
 Properties/C02.vo Properties/C02.glob Properties/C02.v.beautified Properties/C02.required_vo: Properties/C02.v Ast.vo Generated.vo Config.vo Model.vo HookSites.vo Erase.vo P_Hooks.vo P_Erase.vo
 Properties/C02.vio: Properties/C02.v Ast.vio Generated.vio Config.vio Model.vio HookSites.vio Erase.vio P_Hooks.vio P_Erase.vio
 Properties/C02.vos Properties/C02.vok Properties/C02.required_vos: Properties/C02.v Ast.vos Generated.vos Config.vos Model.vos HookSites.vos Erase.vos P_Hooks.vos P_Erase.vos
